@@ -124,7 +124,8 @@ def graph_prop(pid, technique, level_text, explanation, not_covered, extra=None)
                      'load() are outside the verified set'],
     )
     if pid in ('C01', 'C02', 'C03'):
-        d['parts'] = [parts.kani_group('kani-types-structural-eq', TYPES_EQ, complete=True, kind='types')]
+        d['parts'] = [parts.kani_group('kani-types-structural-eq', TYPES_EQ if pid == 'C03' else TYPES_EQ[1:2],
+                                       complete=True, kind='types')]
         d['back_end_extra'] = 'Kani 0.68.0 -> CBMC 6.11 for "== on Label/Persistence is structural" on the real types'
     if extra:
         d.update(extra)
